@@ -71,7 +71,7 @@ static int battery_run(const char *ctx, int depth)
 		uint64_t seed = 0x0123456789abcdefull ^ (uint64_t)len * 0x9e3779b97f4a7c15ull;
 		uint64_t got, exp;
 		if (!V_TRY()) {
-			BAT_FAIL("crc*", "fault at %s len=%d", v_sym(v_fault_rip), len);
+			BAT_FAIL("crc*", "%s len=%d", v_fault_desc(), len);
 			continue;
 		}
 		got = crc16_t10dif((uint16_t)seed, p, len); exp = ref_crc16_t10dif((uint16_t)seed, p, len);
@@ -163,7 +163,7 @@ static int battery_run(const char *ctx, int depth)
 				r = xor_check(vects - 1, len, arr);
 				if (r == 0) BAT_FAIL("xor_check", "corruption missed (len=%d)", len);
 			} else
-				BAT_FAIL("raid", "fault at %s len=%d", v_sym(v_fault_rip), len);
+				BAT_FAIL("raid", "%s len=%d", v_fault_desc(), len);
 			V_END();
 			if (g_check()) BAT_FAIL("raid", "%s", g_last_damage());
 			g_reset();
@@ -212,7 +212,7 @@ static int battery_run(const char *ctx, int depth)
 							}
 						}
 				} else
-					BAT_FAIL("ec_encode_data", "fault at %s len=%d rows=%d", v_sym(v_fault_rip), len, rows);
+					BAT_FAIL("ec_encode_data", "%s len=%d rows=%d", v_fault_desc(), len, rows);
 				V_END();
 				if (g_check()) BAT_FAIL("ec_encode_data", "%s len=%d rows=%d", g_last_damage(), len, rows);
 				g_reset();
@@ -252,7 +252,7 @@ static int battery_run(const char *ctx, int depth)
 						if (d1[j] != rgf_mul(coef[0], src[0][j])) { BAT_FAIL("gf_vect_mul", "len=%d byte %d wrong", len, j); break; }
 				}
 			} else
-				BAT_FAIL("gf_vect_*", "fault at %s len=%d", v_sym(v_fault_rip), len);
+				BAT_FAIL("gf_vect_*", "%s len=%d", v_fault_desc(), len);
 			V_END();
 			if (g_check()) BAT_FAIL("gf_vect_*", "%s len=%d", g_last_damage(), len);
 			g_reset();
@@ -291,7 +291,7 @@ static int battery_run(const char *ctx, int depth)
 							s.next_out = out; s.avail_out = 160000; /* only the one-shot API has an output bound */
 							r = api == 0 ? isal_deflate_stateless(&s) : isal_deflate(&s);
 						} else {
-							BAT_FAIL(api ? "isal_deflate_body" : "isal_deflate_body", "fault at %s compressing len=%d level=%d api=%d", v_sym(v_fault_rip), len, level, api);
+							BAT_FAIL(api ? "isal_deflate_body" : "isal_deflate_body", "%s compressing len=%d level=%d api=%d", v_fault_desc(), len, level, api);
 							V_END();
 							continue;
 						}
@@ -317,7 +317,7 @@ static int battery_run(const char *ctx, int depth)
 								st.next_out = back; st.avail_out = 70000 + 64;
 								ir = api == 0 ? isal_inflate_stateless(&st) : isal_inflate(&st);
 							} else
-								BAT_FAIL("decode_huffman_code_block_stateless", "fault at %s len=%d", v_sym(v_fault_rip), len);
+								BAT_FAIL("decode_huffman_code_block_stateless", "%s len=%d", v_fault_desc(), len);
 							V_END();
 							if (ir != 0 || st.total_out != (uint32_t)len || memcmp(back, in, len) || st.block_state != ISAL_BLOCK_FINISH)
 								BAT_FAIL("decode_huffman_code_block_stateless", "inflate ret=%d total_out=%u len=%d state=%d", ir, st.total_out, len, st.block_state);
@@ -331,7 +331,7 @@ static int battery_run(const char *ctx, int depth)
 									st.next_out = back; st.avail_out = 70000 + 64;
 									ir = api == 0 ? isal_inflate_stateless(&st) : isal_inflate(&st);
 								} else
-									BAT_FAIL("decode_huffman_code_block_stateless", "fault at %s (zlib stream) len=%d", v_sym(v_fault_rip), len);
+									BAT_FAIL("decode_huffman_code_block_stateless", "%s (zlib stream) len=%d", v_fault_desc(), len);
 								V_END();
 								if (ir != 0 || st.total_out != (uint32_t)len || memcmp(back, in, len) || st.block_state != ISAL_BLOCK_FINISH)
 									BAT_FAIL("decode_huffman_code_block_stateless", "zlib-made stream: inflate ret=%d total_out=%u len=%d", ir, st.total_out, len);
@@ -359,7 +359,7 @@ static int battery_run(const char *ctx, int depth)
 					r = isal_deflate_stateless(&s);
 				}
 			} else
-				BAT_FAIL("isal_update_histogram", "fault at %s", v_sym(v_fault_rip));
+				BAT_FAIL("isal_update_histogram", "%s", v_fault_desc());
 			V_END();
 			size_t bl = 0;
 			int zr = r == 0 ? bat_zlib_inflate(out, s.total_out, back, 70000, -15, &bl) : -1;
